@@ -13,6 +13,9 @@ the Coq model.  Kinds of cases:
          enumerated specifier strings (numbers, negative numbers, dotted, revid:, before:,
          last:, tag:, ancestor: with a second real branch, mainline:, nested forms)
   graph  Graph.find_unique_lca / find_lefthand_merger (environment of ancestor:/mainline:)
+  seq    questions (specifiers, dotted revnos both ways, revnos) asked of ONE write-locked
+         Branch object, interleaved with tip changes (set_last_revision_info, pull --overwrite):
+         every answer must be the one for the tip of that moment (no stale cache)
 """
 import daglib
 import msortlib
@@ -225,6 +228,65 @@ def _cases_for(rng, g, tier, gi=0):
             yield {"kind": "spec", "g": g, "tip": tip, "tags": tags, "spec": s}
     for _ in range(4):
         yield {"kind": "graph", "g": g, "a": rng.randrange(n), "b": rng.randrange(n), "tip": rng.choice(good)}
+    yield from _seq_cases(rng, g, tier)
+
+
+def _query(rng, g, tip, pool):
+    rmap = msortlib.revno_map(g, tip)
+    x = rng.random()
+    r = rng.choice(pool)
+    if x < 0.3:
+        return ["dotted", r]
+    if x < 0.45:
+        return ["revno", r]
+    if x < 0.65 and rmap:
+        return ["id", list(rng.choice(list(rmap.values())))]
+    if x < 0.85 and rmap:
+        d = list(rng.choice(list(rmap.values())))
+        return ["spec", ["dotted", d, False] if len(d) == 3 else ["revno", d[0], rng.random() < 0.5]]
+    return ["spec", rng.choice([["revid", r], ["before", ["revid", r]], ["mainline", ["revid", r]],
+                                ["revno", -1, True], ["last", 2]])]
+
+
+def _seq_cases(rng, g, tier):
+    """Questions asked of one locked Branch object while its tip moves."""
+    n = len(g)
+    good = good_tips(g)
+    if len(good) < 2:
+        return
+    # targeted: resolve the dotted revno of X under tip A (that caches X -> (a,b,c)), move to a
+    # tip B whose left-hand history runs through X, ask for X again; and back
+    done = 0
+    for a in reversed(good):
+        rm = msortlib.revno_map(g, a)
+        for x, d in rm.items():
+            if len(d) != 3:
+                continue
+            bs = [b for b in good if b != a and x in daglib.lefthand(g, b)]
+            if not bs:
+                continue
+            b = rng.choice(bs)
+            how = "pull" if rng.random() < 0.6 else "tip"
+            yield {"kind": "seq", "g": g, "tip": a, "tags": [],
+                   "steps": [["spec", ["dotted", list(d), False]], ["dotted", x], [how, b], ["dotted", x],
+                             ["revno", x], ["spec", ["revid", x]], ["id", list(d)], ["tip", a], ["dotted", x],
+                             ["id", list(d)]]}
+            done += 1
+            break
+        if done >= (2 if tier == "quick" else 4):
+            break
+    for _ in range(2 if tier == "quick" else 5):
+        tip = rng.choice(good)
+        t0 = tip
+        steps = []
+        for _k in range(rng.randint(6, 12)):
+            if rng.random() < 0.3:
+                tip = rng.choice(good + [None]) if rng.random() < 0.15 else rng.choice(good)
+                steps.append(["pull" if tip is not None and rng.random() < 0.5 else "tip", tip])
+            else:
+                pool = list(range(n))
+                steps.append(_query(rng, g, tip, pool))
+        yield {"kind": "seq", "g": g, "tip": t0, "tags": [], "steps": steps}
 
 
 def corpus():
@@ -293,6 +355,8 @@ def impl(inp):
             b = [_catch(lambda: idx(br.get_rev_id(n))) for n in inp["ns"]]
             c = [_catch(lambda: idx(br.dotted_revno_to_revision_id(tuple(d)))) for d in inp["ds"]]
         return [a, b, c]
+    if kind == "seq":
+        return _impl_seq(inp, br)
     # kind == "spec"
     from breezy.revisionspec import RevisionSpec
     with br.lock_write():
@@ -308,6 +372,42 @@ def impl(inp):
         o1 = _catch(in_history)
         o2 = _catch(lambda: idx(RevisionSpec.from_string(text).as_revision_id(br)))
     return [o1, o2]
+
+
+def _impl_seq(inp, br):
+    from breezy.revisionspec import RevisionSpec
+    from vlib import Tag
+    h, g = _state["h"], inp["g"]
+    others = {st[1]: h.other_branch(g, st[1]) for st in inp["steps"] if st[0] == "pull"}
+    out = []
+    with br.lock_write():
+        for st in inp["steps"]:
+            what = st[0]
+            if what == "tip":
+                if st[1] is None:
+                    br.set_last_revision_info(0, b"null:")
+                else:
+                    br.set_last_revision_info(daglib.revno_of(g, st[1]), rid(st[1]))
+                out.append(Tag("tip"))
+            elif what == "pull":
+                br.pull(others[st[1]], overwrite=True)
+                out.append(Tag("tip"))
+            elif what == "spec":
+                text = spec_str(st[1])
+
+                def in_history():
+                    info = RevisionSpec.from_string(text).in_history(br)
+                    return [info.revno, idx(info.rev_id)]
+                out.append([_catch(in_history), _catch(lambda: idx(RevisionSpec.from_string(text).as_revision_id(br)))])
+            elif what == "dotted":
+                out.append(_catch(lambda: list(br.revision_id_to_dotted_revno(rid(st[1])))))
+            elif what == "id":
+                out.append(_catch(lambda: idx(br.dotted_revno_to_revision_id(tuple(st[1])))))
+            elif what == "revno":
+                out.append(_catch(lambda: br.revision_id_to_revno(rid(st[1]))))
+            else:
+                raise ValueError(st)
+    return out
 
 
 # ---- model term -----------------------------------------------------------------------------------
@@ -329,6 +429,18 @@ def model_term(inp):
         return (f"run_num {g} {tip} {coq_list(inp['rs'], str)} {coq_list(inp['ns'], coq_Z)} "
                 f"{coq_list([coq_list(d, str) for d in inp['ds']])}")
     tags = coq_list([f"({t}, {r})" for t, r in inp["tags"]])
+    if kind == "seq":
+        def step(st):
+            if st[0] in ("tip", "pull"):
+                return f"(SetTip {_o(st[1])})"
+            if st[0] == "spec":
+                return f"(QSpec {spec_coq(st[1])})"
+            if st[0] == "dotted":
+                return f"(QDotted {st[1]})"
+            if st[0] == "id":
+                return f"(QId {coq_list(st[1], str)})"
+            return f"(QRevno {st[1]})"
+        return f"run_seq {g} {tip} {tags} {coq_list([step(st) for st in inp['steps']])}"
     return f"run_spec {g} {tip} {tags} {spec_coq(inp['spec'])}"
 
 
@@ -508,7 +620,14 @@ def oracle(inp, obs):
             if g2 != want:
                 return f"dotted_revno_to_revision_id({d}) = {got!r} but revision_id_to_dotted_revno maps {want} to it"
         return None
-    # spec
+    if kind == "seq":
+        return _oracle_seq(inp, obs)
+    return _oracle_spec(g, tip, inp["tags"], inp["spec"], obs)
+
+
+def _oracle_spec(g, tip, tags, spec, obs):
+    n = len(g)
+    inp = {"spec": spec, "tags": tags}
     o1, o2 = obs
     real_map = {rv: x for x, _d, rv, _e in ref_merge_sort(g, tip)}
     e = _expect_spec(g, tip, inp["tags"], inp["spec"], real_map)
@@ -546,6 +665,43 @@ def oracle(inp, obs):
     return None
 
 
+def _oracle_seq(inp, obs):
+    """Every answer must be the answer for the tip of that moment."""
+    g, tip = inp["g"], inp["tip"]
+    for k, (st, o) in enumerate(zip(inp["steps"], obs)):
+        what = st[0]
+        if what in ("tip", "pull"):
+            tip = st[1]
+            continue
+        where = f"step {k} (tip {tip} after {[x for x in inp['steps'][:k] if x[0] in ('tip', 'pull')]})"
+        ml = _mainline(g, tip)
+        rmap = msortlib.revno_map(g, tip)
+        if what == "spec":
+            why = _oracle_spec(g, tip, inp["tags"], st[1], o)
+            if why:
+                return f"{where}: {why}"
+        elif what == "dotted":
+            r = st[1]
+            want = [ml.index(r) + 1] if r in ml else (list(rmap[r]) if r in rmap else "err")
+            got = "err" if isinstance(o, Err) else o
+            if got != want:
+                return f"{where}: revision_id_to_dotted_revno({r}) = {o!r}, its dotted revno is {want}"
+        elif what == "id":
+            d = tuple(st[1])
+            back = {tuple(v): x for x, v in rmap.items()}
+            want = None if d == (0,) else back.get(d, "err")
+            got = "err" if isinstance(o, Err) else o
+            if got != want:
+                return f"{where}: dotted_revno_to_revision_id({d}) = {o!r}, that revno belongs to {want}"
+        elif what == "revno":
+            r = st[1]
+            want = ml.index(r) + 1 if r in ml else "err"
+            got = "err" if isinstance(o, Err) else o
+            if got != want:
+                return f"{where}: revision_id_to_revno({r}) = {o!r}, its position in the left-hand history is {want}"
+    return None
+
+
 def _unchecked_before(s, n, g, tip, tags, real_map):
     """before:X where X itself is not in the repository: the definition has no parent to name."""
     e = _expect_spec(g, tip, tags, s[1], real_map)
@@ -557,7 +713,7 @@ def finding_matches(fid, inp, obs, why):
 
 
 def nontrivial(inp, obs):
-    return inp["kind"] in ("num", "spec", "iter") and any(len(ps) > 1 for ps in inp["g"])
+    return inp["kind"] in ("num", "spec", "iter", "seq") and any(len(ps) > 1 for ps in inp["g"])
 
 
 def distribution(inputs, observations):
